@@ -97,6 +97,8 @@ class C17(Harness):
         if k == "column-ensemble":
             inp["dup_names"] = bool(ctx.fresh_bool("dup_names"))
             inp["shared_estimator"] = inp["labels"] == 1  # (tied to the label-type choice to keep the path count)
+            # members given their column by NAME, and a frame at predict time whose columns come in another order
+            inp["by_name"] = inp["labels"] == 2 and not inp["dup_names"]
         p = [[fresh_reals(ctx, "p%d_%d_" % (e, i), nk) for i in range(ni)] for e in range(ne)]
         if k != "tsf-regressor":
             for e in range(ne):
@@ -208,11 +210,14 @@ class C17(Harness):
                 if inp.get("dup_names"):  # two univariate panels put side by side carry the same default column label
                     Xn.columns = ["dim_0", "dim_0"]
                     Xfit.columns = ["dim_0", "dim_0"]
+                colspec = (lambda e: [["c0", "c1"][e % 2]]) if inp.get("by_name") else (lambda e: [e % 2])
+                if inp.get("by_name"):
+                    Xn = Xn[["c1", "c0"]]
                 if inp.get("shared_estimator"):  # one estimator object listed for every member: each member still is its own clone
                     one = Clf(e=0)
-                    members = [("m%d" % e, one, [e % 2]) for e in range(ne)]
+                    members = [("m%d" % e, one, colspec(e)) for e in range(ne)]
                 else:
-                    members = [("m%d" % e, Clf(e=e), [e % 2]) for e in range(ne)]
+                    members = [("m%d" % e, Clf(e=e), colspec(e)) for e in range(ne)]
                 ce = CE(members + [("unused", "drop", [0])])  # a member specified as 'drop' does not vote
                 ce.fit(Xfit, ys)
                 del seen[:]
